@@ -84,7 +84,13 @@ func (r *runner) exec(entry string, cuts, reads []int, eofWithData bool) *outcom
 			} else {
 				p = r.cd.NewParser(t)
 			}
-			_, o.err = simkit.Feed(p, r.doc, cuts, true, &r.x.Clock)
+			// reach measure: the parser's resume state at every chunk boundary
+			// (verif-tag hook: stack depths, buffered bytes, current state)
+			_, o.err = simkit.Feed(p, r.doc, cuts, true, &r.x.Clock, func(int) {
+				if d, ok := p.(interface{ VerifDepths() []int }); ok {
+					r.x.Stats.State(simkit.NewDigest().Str(string(r.cd.Name)).Ints(d.VerifDepths()).Sum())
+				}
+			})
 		case "reader":
 			rd := &simkit.Reader{Data: r.doc, Sizes: reads, EOFWithData: eofWithData, Clock: &r.x.Clock}
 			if r.noRef {
